@@ -189,6 +189,9 @@ func (fx *FuncCtx) runFrom(st *State, b *ssa.BasicBlock, i int) {
 		case *ssa.Jump:
 			next = b.Succs[0]
 		case *ssa.Return:
+			if fx.inlineReturn(st, in) {
+				return
+			}
 			fx.doReturn(st, in)
 			return
 		case *ssa.Panic:
